@@ -44,13 +44,17 @@ ForceCases(z)    == {Case("force", d, fl, l) : d \in 1..(gG + 2), fl \in {0, 1},
 
 \* Merge: pairs of lists + maps with keys subset of {a,b} (A) / {a,b} (B); nil receivers
 IdMaps(tag) == UNION {{[k \in P |-> [id |-> k, parent |-> "", tag |-> tag]]} : P \in SUBSET {"a", "b"}}
+\* the argument may keep a definition under a map key that is not its identifier: it is united by identifier
+ForeignKeyMaps(tag) == {("x" :> [id |-> "a", parent |-> "", tag |-> tag]),
+                        ("x" :> [id |-> "b", parent |-> "", tag |-> tag]) @@ ("a" :> [id |-> "a", parent |-> "", tag |-> tag]),
+                        ("x" :> [id |-> "c", parent |-> "", tag |-> tag]) @@ ("y" :> [id |-> "a", parent |-> "", tag |-> tag])}
 MergeCases(z) ==
   {[op |-> "merge", a |-> nilA, b |-> 0,
     pre  |-> [items |-> A, styles |-> sa, regions |-> EmptyMap, snil |-> (nilA = 1), rnil |-> (nilA = 1)],
     pre2 |-> [items |-> MapSeq(B, LAMBDA c : [c EXCEPT !.id = c.id + 10, !.ptr = c.ptr + 10]),
               styles |-> sb, regions |-> EmptyMap, snil |-> FALSE, rnil |-> FALSE]] :
      A \in Lists(gG, gN, 1), B \in UNION {ListsN(n, gG, 1) : n \in 0..gN},
-     sa \in IdMaps("A"), sb \in IdMaps("B"), nilA \in {0, 1}}
+     sa \in IdMaps("A"), sb \in IdMaps("B") \cup ForeignKeyMaps("B"), nilA \in {0, 1}}
 
 \* Optimize / RemoveStyling: reference graphs (partitioned on the style map)
 StyleMapSeq == SetToSeq(StyleMaps)
